@@ -59,6 +59,18 @@ CHECKS = {
             "finite corpus; one recorded known finding (default variant + custom error)"),
 }
 
+CHECKS.update({
+    "C07": (TV, "G+X", "dispatch-table extraction from strum_macros' resolved HIR (all programs) + translation validation of emitted literals against an independent casing oracle",
+            "G5 reads {style string -> CaseStyle variant} and {variant -> ordered casing callees (heck::*, str::to_uppercase ..)} off the generator's own type-checked program and compares the composition with the documented table for all 16 accepted strings - this holds for every enum; G4 shows the conversion is applied at one point every name-producing derive reaches with the enum's case_style; X compares every literal emitted for ~45 identifier shapes x 17 styles (thorough: all 7 774 identifiers up to length 5 over {a,b,A,B,1,_}) with py/spec.py's casing function.",
+            "heck's word splitting (third party) trusted to implement the documented boundary rule; oracle calibrated on the unchanged tree"),
+    "C19": ("other", "G+X+W", "template token inventory over strum_macros' HIR + resolved-dependency rule over expansions + compile witnesses in three configurations",
+            "G6 inspects every quote! template reachable from a non-deprecated derive (976+ identifier pushes): no std/alloc path, no std-prelude-only name, no alloc macro, ::core always rooted, no hard-coded strum path - for all programs. X checks the defining crate and written spelling of every resolved path/method/macro in each generated item. W type-checks the whole corpus as #![no_std] without alloc, with strum only reachable under another name, and with local `core`/`std` modules.",
+            "cargo check stands for cargo build; the corpus bounds the 'every enum in its documented domain' quantifier"),
+    "C20": ("other", "G+W", "panic-site inventory, dropped-Result rule and entry-point rule over strum_macros' resolved HIR + compile_fail witnesses with compiling twins",
+            "G1 enumerates every panic site reachable from the 18 entry points and requires each to match a vetted table (class I/L/O); G2 flags every Result<_, syn::Error> that flows into ok()/unwrap_or*/is_ok/if-let-Ok/unused; G3 checks that every entry point converts Err into compile_error! tokens. W builds one must-fail cargo example per (listed rule, derive) plus a compiling twin, and requires a code-less error (compile_error! from the macro), no panic, and a span inside the offending item.",
+            "class-I reasons are human arguments recorded in py/grules.py; syn/quote/proc_macro2 do not panic on valid tokens"),
+})
+
 NOT_YET = {
 }
 
